@@ -53,6 +53,11 @@ fn main() {
                     bad.push(format!("expected {:?}", x));
                 }
             }
+            if let Some(x) = e["starts_with"].as_str() {
+                if !s.starts_with(x) {
+                    bad.push(format!("expected a result starting with {:?}", x));
+                }
+            }
             if let Some(x) = e["not_equals"].as_str() {
                 if s == x {
                     bad.push(format!("must differ from {:?}", x));
